@@ -329,6 +329,16 @@ def captures(ctx, h, res):
         return [("edge_whitelist", arg), ("the dict behind an inner mappingproxy of edge_whitelist", inner)], lambda: h.call(lawcls, edge_whitelist=arg), []
 
     case("UniverseLaws(edge_whitelist= with read-only inner views)", "edgegraph.structure.universe.UniverseLaws.__init__", b_whitelist_proxy_inner)
+
+    def b_whitelist_proxy_outer():
+        # the whitelist itself is handed over as a read-only view of a dictionary the caller keeps (and may go on editing)
+        K1, K2 = h.cls("Vertex"), h.cls("DirectedEdge")
+        inner = DictV([[K1, K2]])
+        backing = DictV([[K1, inner]])
+        arg = ProxyV(backing)
+        return [("the dict behind the mappingproxy given as edge_whitelist", backing), ("an inner dict of that whitelist", inner)], lambda: h.call(lawcls, edge_whitelist=arg), []
+
+    case("UniverseLaws(edge_whitelist= given as a read-only view)", "edgegraph.structure.universe.UniverseLaws.__init__", b_whitelist_proxy_outer)
     case("Vertex(links=)", "edgegraph.structure.vertex.Vertex.__init__", b_vertex_links)
     case("Vertex(universes=)", "edgegraph.structure.base.BaseObject.__init__", b_vertex_universes)
     case("Vertex(attributes=)", "edgegraph.structure.base.BaseObject.__init__", b_vertex_attributes)
